@@ -11,8 +11,11 @@
 #define OASTOK_STRINGS_AND_REALS
 #include "oastok.h"
 #include "gds_read.h"
+#include "oas_ref.h"
 #define READ_OAS _ZN5gdstk8read_oasEPKcddPNS_9ErrorCodeE
+#ifndef LIM
 #define LIM (1 << 20)
+#endif
 static void B(uint8_t b) { tok_put(K_BYTE, b, 0); }
 static void U(uint64_t v) { tok_put(K_UINT, v, 0); }
 static void I(int64_t v) { tok_put(K_INT, (uint64_t)v, 0); }
@@ -42,6 +45,13 @@ int main(void) {
 #elif ELEM == 4      /* TEXT with inline string, text layer / type, position */
   uint8_t ch = 't';
   B(19); B(0x5B); STR1(ch); U(layer); U(dtype); I(x); I(y);
+#elif ELEM == 5      /* TRAPEZOID: record REC = 23 (delta-a and delta-b), 24 (delta-a only), 25 (delta-b only); O bit (0x80) = VERT: parallel sides vertical */
+  int32_t da = REC == 25 ? 0 : (int32_t)nd_range(-LIM, LIM), db = REC == 24 ? 0 : (int32_t)nd_range(-LIM, LIM);
+  B(REC); B((uint8_t)((VERT << 7) | 0x7B)); U(layer); U(dtype); U(w); U(h); if (REC != 25) I(da); if (REC != 24) I(db); I(x); I(y);
+#elif ELEM == 6      /* CTRAPEZOID type CT (0..25): info byte T W H X Y R D L; W / H present exactly when the type uses them. The type is an unsigned-integer
+                        in the specification and read as one raw byte by gdstk: the same byte for every defined type, so the token is a byte */
+  int use_h = CT < 16 || CT == 20 || CT == 21 || CT == 24, use_w = CT != 20 && CT != 21;
+  B(26); B((uint8_t)(0x9B | (use_w ? 0x40 : 0) | (use_h ? 0x20 : 0))); U(layer); U(dtype); B(CT); if (use_w) U(w); if (use_h) U(h); I(x); I(y);
 #endif
   B(2);                /* END */
   uint8_t fname[2] = {'f', 0}; uint32_t err = 0; Lib lib = {0};
@@ -69,6 +79,17 @@ int main(void) {
     CHECK(r->f0 == 0 && *(Cell**)&r->f1 == lib_cell(&lib, 1) && lib_cell(&lib, 1)->f0[0] == 'D', "placement by name resolved to the cell defined later");
     CHECK(VXD(r->f2) == (double)x && VYD(r->f2) == (double)y && r->f4 == 1.0 && (r->f5 & 1) == refl, "origin, unit magnification, reflection bit");
     CHECK(r->f3 == (RC == 0 ? 0.0 : RC == 1 ? 3.14159265358979323846 * 0.5 : RC == 2 ? 3.14159265358979323846 : 3.14159265358979323846 * 1.5), "rotation code: 0 / 90 / 180 / 270 degrees"); }
+#elif ELEM == 5 || ELEM == 6
+  { CHECK(c->f1.f1 == 1, "one polygon"); Poly* p = ((Poly**)c->f1.f2)[0]; double* q = (double*)p->f1.f2;
+    int64_t rx[4], ry[4], gx[4], gy[4];
+#if ELEM == 5
+    int n = ref_trapezoid(VERT, (int64_t)w, (int64_t)h, da, db, rx, ry);
+#else
+    int n = ref_ctrapezoid(CT, (int64_t)w, (int64_t)h, rx, ry);
+#endif
+    CHECK(p->f0 == TAG(layer, dtype) && p->f1.f1 == (uint64_t)n, "32-bit layer and datatype; vertex count of the shape");
+    int exact = 1; for (int i = 0; i < 4; i++) if (i < n) { gx[i] = (int64_t)q[2 * i]; gy[i] = (int64_t)q[2 * i + 1]; if ((double)gx[i] != q[2 * i] || (double)gy[i] != q[2 * i + 1]) exact = 0; rx[i] += x; ry[i] += y; OBS("x", gx[i]); OBS("y", gy[i]); }
+    CHECK(exact && ref_same_cycle(n, gx, gy, rx, ry), "the vertices the record definition gives (as a cycle: any starting vertex, either direction)"); }
 #elif ELEM == 4
   { CHECK(c->f5.f1 == 1, "one label"); Label* l = ((Label**)c->f5.f2)[0];
     CHECK(l->f0 == TAG(layer, dtype) && l->f1[0] == ch && l->f1[1] == 0 && VXD(l->f2) == (double)x && VYD(l->f2) == (double)y, "text, text layer / type, position"); }
